@@ -30,7 +30,7 @@ TEXT = {
             "(ascends to the WBS sentinel), duplicate detection inside the argument, lookup/enumeration shape",
             "decides the guard placement/scope/polarity and the DFS enumeration shape; relies on C01 for the forest invariant."),
     'C06': ("interprocedural effect analysis with receiver provenance: calc's input only reaches effect-free validators and clone(); "
-            "scheduler writes only start/end/estimate/spent of clone tasks; fresh ledger/memo; enumerated nondeterminism sources; definite assignment of start/end",
+            "scheduler writes only start/end/estimate/spent of clone tasks and recurses over dependency links only into tasks of the clone; fresh ledger/memo; enumerated nondeterminism sources; definite assignment of start/end",
             "decides purity, same-structure, freshness, all-dated and the list of clock reads / unordered iteration; "
             "clock independence is decided only as 'every clock read is an operand of a max that also contains a term "
             "bounded by the project start' with the two known corner cases listed as known findings."),
@@ -49,7 +49,7 @@ TEXT = {
     'C10': ("provenance analysis of clone/subtree (every mutated object is a copy or a guarded external), per-field copy coverage of "
             "Task.clone against Task.__init__, all four relations rebuilt in source order, WBS attribute copy on the shared path",
             "decides independence of the source (no write through a source object), faithfulness clauses and owner "
-            "propagation structurally; id collisions between externals and members and shared mutable attribute values are not decided."),
+            "propagation structurally, and that link ends outside the source are handed to the copy as themselves (never looked up by id in the map of member clones); shared mutable attribute values are not decided."),
     'C11': ("who-may-write on the owner pointer, attach/detach recursion over all children, pairing of every parent write with attach "
             "and of every list removal with detach, same-owner guard table",
             "decides the inductive steps of 'owner = reachable from the sentinel' per writer; relies on C01 for the forest invariant."),
@@ -61,9 +61,9 @@ TEXT = {
             "decides column/convertor agreement and id opacity; min_start loss is a recorded known finding; the csv "
             "module's quoting is trusted."),
     'C14': ("exception discipline over the call-graph reach of both calc methods: explicit raise classes, implicit-exception sites with "
-            "discharge rules, bounded loops with counter on every path, recursion edge kinds covered by the loop pre-check",
+            "discharge rules (scheduler core and the library calendars it reaches), bounded loops with counter on every path, recursion edge kinds covered by the loop pre-check, recursion confined to the WBS being scheduled (memo keyed by id)",
             "decides that every explicit raise is RuntimeError, every division/subscript/max-of-empty site is discharged, "
-            "every loop has a bound raising RuntimeError, and the pre-check follows every edge kind the passes recurse over. "
+            "every loop has a bound raising RuntimeError, the pre-check follows every edge kind the passes recurse over, and the passes never leave the WBS whose ids key their memo. "
             "Stack depth on deep acyclic inputs is not decided."),
     'C15': ("interprocedural event-order rule: no raise or may-raise operation reachable after the first relation write in any public "
             "mutator unless pre-validated by an equivalent guard before the write",
